@@ -164,8 +164,14 @@ def run(case):
     tol = TOLERANCES["loose_px"] if loose else TOLERANCES["tight_px"]
     gain = float(rng.choice([1.0, 0.01, 250.0]))
     offset = float(rng.choice([0.0, 3.0])) if p["model"] == "ZNCC" and p["mask"] == "none" else 0.0
+    # a modest common background level of template and copy (the copy is still an exact displaced copy)
+    bg = float(rng.choice([0.0, 0.0, 0.2])) * float(tmpl.max()) if p["mask"] == "none" else 0.0
+    if bg:
+        tmpl = (tmpl + np.float32(bg)).astype(np.float32)
+        model = Model(tmpl, mask, **kw)
+        case.count("with_background")
     for d in displacements(rng, Ms, p["nd"]):
-        img = (gen.render_box(shape, blobs, d=d, dtype=np.float64) * gain + offset).astype(np.float32)
+        img = ((gen.render_box(shape, blobs, d=d, dtype=np.float64) + bg) * gain + offset).astype(np.float32)
         try:
             res = model.align(img, tuple(Ms), quat, pos)
         except Exception as e:
@@ -192,7 +198,7 @@ def run(case):
         case.check(np.isfinite(float(res.score)), "non-finite score", score=repr(res.score))
     # fit == align, and the fitted image superimposes on the template
     d = displacements(rng, Ms, 4)[3]
-    img = gen.render_box(shape, blobs, d=d, dtype=np.float32)
+    img = (gen.render_box(shape, blobs, d=d, dtype=np.float32) + np.float32(bg)).astype(np.float32)
     try:
         out, res_f = model.fit(img, tuple(Ms))
         res_a = model.align(img, tuple(Ms))
